@@ -485,6 +485,37 @@ def write_evidence(run, mod, verdict, n_fresh, known_hits):
     os.replace(tmp, path)
 
 
+ALL_TEST_FILES = [
+    "test_base.py", "test_blockreduce.py", "test_chain.py", "test_coordinates.py", "test_distances.py", "test_io.py", "test_mask.py",
+    "test_minimal.py", "test_model_selection.py", "test_neighbors.py", "test_projections.py", "test_scipy.py", "test_spline.py",
+    "test_synthetic.py", "test_trend.py", "test_utils.py", "test_vector.py",
+]
+
+
+def ambient_tests(run, filename):
+    """
+    Ambient executions: run one of the repository's own test modules in-process while the property's monitors are installed.
+    The tests' own pass/fail is not the verdict (it is recorded); what counts is what the monitors observe on the calls they make.
+    """
+    import contextlib
+    import io
+
+    import pytest
+    import verde
+
+    path = os.path.join(os.path.dirname(os.path.abspath(verde.__file__)), "tests", filename)
+    sink = io.StringIO()
+    before = run.counters.get("evaluations", 0)
+    with contextlib.redirect_stdout(sink), contextlib.redirect_stderr(sink):
+        code = pytest.main(["-q", "--no-header", "-p", "no:cacheprovider", "-p", "no:xdist", "-p", "no:timeout",
+                            "-k", "not fetch and not datasets_locate", path])
+    run.count("ambient:%s:pytest_exit_%s" % (filename, int(code)))
+    run.count("ambient_evaluations", run.counters.get("evaluations", 0) - before)
+    tail = [ln for ln in sink.getvalue().strip().splitlines() if ln.strip()][-1:]
+    if len(run.notes) < 40:
+        run.notes.append("ambient %s: %s" % (filename, tail[0] if tail else ""))
+
+
 def run_sharded(prop_id, tier, seed, nshards, timeout_s):
     """Fan a tier out over worker processes (subprocess.run, never a Pool)."""
     import concurrent.futures as cf
